@@ -6,12 +6,12 @@ CFG = dict(
     stages=[
         seq("seq_asan", "asan", "c15_ring.c", 20000, 2000000, mode="seq"),
         seq("seq_rel", "rel", "c15_ring.c", 10000, 1000000, mode="seq"),
-        seq("conc_tsan", "tsan", "c15_ring.c", 96, 8000, mode="conc", wrap=True, params={0: 6000}, per_proc_timeout=1500),
-        seq("conc_tsanrel", "tsanrel", "c15_ring.c", 96, 8000, mode="conc", wrap=True, params={0: 6000},
+        seq("conc_tsan", "tsan", "c15_ring.c", 96, 1600, mode="conc", wrap=True, params={0: 6000}, per_proc_timeout=1500),
+        seq("conc_tsanrel", "tsanrel", "c15_ring.c", 96, 1600, mode="conc", wrap=True, params={0: 6000},
             per_proc_timeout=1500),
-        seq("conc_asanh", "asanh", "c15_ring.c", 96, 8000, mode="conc", wrap=True, params={0: 12000},
+        seq("conc_asanh", "asanh", "c15_ring.c", 96, 1600, mode="conc", wrap=True, params={0: 12000},
             per_proc_timeout=1500),
-        seq("conc_rel", "rel", "c15_ring.c", 96, 8000, mode="conc", params={0: 20000}, per_proc_timeout=1500),
+        seq("conc_rel", "rel", "c15_ring.c", 96, 1600, mode="conc", params={0: 20000}, per_proc_timeout=1500),
     ],
     rule=("seq: case = 20-420 FIFO operations (acquire / acquire_up_to / release-oldest) on a ring of size from "
           "{1,2,3,7,16,64,100,255,4096} or random 1..300, interval oracle over the outstanding set, fill patterns, "
